@@ -85,7 +85,22 @@ func (a *Atoms) atomOfSvc(name string) int64 {
 	return a.unknown
 }
 
+// isBlockedAtom: the atoms that stand for module accounts (model: is_blocked)
+func isBlockedAtom(at int64) bool { return at >= 9001 && at <= 9004 }
+
+// addrAtomsSorted lists the ordinary addresses; the module accounts behind the blocked atoms
+// are observed under their own names (-1 escrow, -2 deposit account, -3 fee collector).
 func (a *Atoms) addrAtomsSorted() []int64 {
+	var out []int64
+	for _, at := range a.allAddrAtomsSorted() {
+		if !isBlockedAtom(at) {
+			out = append(out, at)
+		}
+	}
+	return out
+}
+
+func (a *Atoms) allAddrAtomsSorted() []int64 {
 	var out []int64
 	for at := range a.addrBytes {
 		out = append(out, at)
